@@ -609,6 +609,21 @@ pub fn generate(rng: &mut Rng, tier: Tier) -> Plan {
                 };
             }
             let mut spec = gen_spline(rng);
+            if rng.chance(0.03) {
+                // a spline without any B-spline (as many knots as the order), born with its
+                // (empty) coefficient vector
+                spec.t.truncate(spec.k);
+                spec.preset = Some(vec![]);
+                let mut ops: Vec<Op> = Vec::new();
+                insert_restarts(rng, &mut ops, false);
+                let xs = vec![spec.t[0], spec.t[spec.t.len() - 1]];
+                return Plan {
+                    obj: ObjSpec::Spline { spec, xs },
+                    ops,
+                    probes: vec![],
+                    probes_exact: vec![],
+                };
+            }
             if rng.chance(0.3) {
                 // a spline born with its coefficients
                 spec.preset = Some(gen_preset(rng, &spec));
@@ -705,7 +720,7 @@ fn build_number_pair(
 
 fn build_spline(spec: &SplineSpec) -> Result<Spl, Fail> {
     let t: Vec<f64> = spec.t.iter().map(|x| x.get()).collect();
-    if t.len() < 2 || spec.k < 1 || t.len() <= spec.k {
+    if t.len() < 2 || spec.k < 1 || t.len() < spec.k {
         return Err(herr("bad spline spec"));
     }
     use rateslib::dual::Vars;
